@@ -385,8 +385,17 @@ pub fn evaluate_ast(
                 ));
             }
 
-            // Check if the variable already exists (immutability check)
-            if bindings.contains_key(ident) {
+            // Check if the variable already exists (immutability check). Inside a function
+            // call only the function's own frame counts: whether the caller happens to
+            // have a variable of that name must not change what the function does.
+            let already_defined = |bindings: &Environment| {
+                if call_depth > 0 {
+                    bindings.contains_key_local(ident)
+                } else {
+                    bindings.contains_key(ident)
+                }
+            };
+            if already_defined(&bindings) {
                 return Err(RuntimeError::with_span(
                     format!("{} is already defined, and cannot be reassigned", ident),
                     expr.span,
@@ -404,7 +413,7 @@ pub fn evaluate_ast(
 
             // The right-hand side may itself have bound `ident` (`x = [x = 1, x]`):
             // check again, so that the insert below can never replace a binding.
-            if bindings.contains_key(ident) {
+            if already_defined(&bindings) {
                 return Err(RuntimeError::with_span(
                     format!("{} is already defined, and cannot be reassigned", ident),
                     expr.span,
